@@ -103,7 +103,8 @@ class CallMixin:
         if isinstance(recv, ObjV):
             return recv.cls
         if isinstance(recv, SelfV):
-            return (recv.typ if recv.path else recv.root_cls)
+            t = (recv.typ if recv.path else recv.root_cls)
+            return t if isinstance(t, ClassInfo) else None
         if isinstance(recv, EnumMember):
             return recv.cls
         return None
@@ -755,6 +756,11 @@ class CallMixin:
             vc = v.cls
         elif isinstance(v, SelfV):
             vc = v.typ if v.path else v.root_cls
+            if isinstance(vc, tuple) and vc and vc[0] == 'union' and isinstance(tc, ClassInfo):
+                rs = [m.is_subclass_of(tc) for m in vc[1]]
+                return True if all(rs) else None
+            if not isinstance(vc, ClassInfo):
+                return None
             if vc is not None and isinstance(tc, ClassInfo):
                 # declared type is an upper bound only: a positive answer is certain, a negative one is not
                 return True if vc.is_subclass_of(tc) else None
